@@ -6,7 +6,11 @@
         -> U | C <hexnewline> | OOB | FUEL
      ef <hexpat> <icase> <hexline>             the MODEL of the matcher (SubstEngineDefs.engine_find = rstr_make / rstr_find over
         RstrDefs / RsetDefs / ReVM at the recursion limit NDEPT) on every suffix of the line with and without RE_NOTBOL
-        -> path=<s|g|x> <k>.<nb>=<so>,<eo>,<so1>,<eo1>,... cut=<n>      (the line probe_rstr tb prints for /repo's matcher) *)
+        -> path=<s|g|x> <k>.<nb>=<so>,<eo>,<so1>,<eo1>,... cut=<n>      (the line probe_rstr tb prints for /repo's matcher)
+     hd <hexkwd|-> <dir> <hexrep> <row> <icase> <hexloc> <hextail> <hexline>...       the head of ec_substitute with its ADDRESS
+        (SubstAddrDefs.subst_head: ex_region incl. the searches of /re/ ?re? addresses -- matcher = engine_find, the model of
+        rstr_make / rstr_find --, THEN the command's own pattern and replacement); state = xkwd, xkwddir, xrep, xrow; lines with their newline
+        -> bad=<0|1|fuel> beg=<row> end=<row> kwd=<hex|none> dir=<d> row=<n> rep=<hex> g=<0|1> pat=<hex|none> arg=<hex> rest=<hex> *)
 let pr = Printf.printf
 let hexo = function None -> "none" | Some b -> hex_of_bytes b
 let ohex w = if w = "none" then None else Some (bytes_of_hex w)
@@ -48,11 +52,28 @@ let do_ef pat ic line =
       (String.concat "," (List.map (fun (a, b) -> Printf.sprintf "%d,%d" (int_of_z a) (int_of_z b)) g))) tbl;
   pr " cut=%d\n" (int_of_n cuts)
 
+let do_hd kwd dir rep row ic loc tail lines =
+  let ic = (ic = "1") in
+  let (arg, rest) = ex_arg_s (bytes_of_hex tail) in
+  let k = { k_kwd = bytes_of_hex kwd; k_dir = z_of_int (int_of_string dir); k_rep = bytes_of_hex rep; k_row = z_of_int (int_of_string row) } in
+  let valid p = int_of_n (engine_path ic p) <> 120 in
+  let find p ln nb = engine_find engine_depth ic p ln nb in
+  let buf = List.map bytes_of_hex lines in
+  let show k' bad b e pat g =
+    pr "bad=%s beg=%d end=%d kwd=%s dir=%d row=%d rep=%s g=%d pat=%s arg=%s rest=%s\n" bad b e
+      (if int_of_z k'.k_dir = 0 then "none" else hex_of_bytes k'.k_kwd) (int_of_z k'.k_dir) (int_of_z k'.k_row) (hex_of_bytes k'.k_rep)
+      (if g then 1 else 0) (hexo pat) (hex_of_bytes arg) (hex_of_bytes rest) in
+  match subst_head valid find buf (bytes_of_hex loc) arg k with
+  | None -> show k "fuel" 0 0 None false
+  | Some (k', None) -> show k' "1" 0 0 None false
+  | Some (k', Some (((b, e), pat), g)) -> show k' "0" (int_of_z b) (int_of_z e) (Some pat) g
+
 let () =
   iter_lines (fun l ->
     (match words l with
      | ["pre"; k; r; t] -> do_pre k r t
      | "run" :: g :: r :: ln :: table -> do_run g r ln table
      | ["ef"; p; ic; ln] -> do_ef p ic ln
+     | "hd" :: k :: d :: r :: row :: ic :: loc :: tail :: lines -> do_hd k d r row ic loc tail lines
      | _ -> pr "?\n");
     flush stdout)
